@@ -89,10 +89,5 @@ Theorem gtf_lazy_eq_owned : forall l f, gtf_owned l = Ok f ->
   /\ l_score l = option_map Ok (f_score f) /\ l_strand l = Ok (f_strand f)
   /\ l_phase l = option_map Ok (f_phase f) /\ l_attrs l = (f_attrs f, None).
 Proof.
-  intros l f H. unfold gtf_owned in H. apply gff_lazy_eq_owned in H.
-  cbn [l_seqid l_source l_type l_start l_end l_score l_strand l_phase l_attrs] in H.
-  destruct H as (H1 & H2 & H3 & H4 & H5 & H6 & H7 & H8 & H9).
-  repeat split; try assumption.
-  destruct (l_attrs l) as [items e]. cbn [fst snd] in H9. injection H9 as Ha He.
-  destruct e as [u|]; [discriminate|]. now subst.
+  intros l f H. unfold gtf_owned in H. now apply gff_lazy_eq_owned.
 Qed.
